@@ -1,9 +1,25 @@
 import JL.Lemmas.Monad
+import JL.Lemmas.C10
 /-!
 # C10 — arithmetic yields the exact IEEE-754 double or an error, never a wrong number
+
+Layout of the statement (specification side in `JL/Spec/Arith.lean`):
+
+* **narrowing** (`toNumberValue`, the only way an arithmetic double becomes a JSON value):
+  `narrow_spec`, `narrow_exact`, `narrow_integer_spelling`, `narrow_int`, `narrow_flt`, `narrow_wf`,
+  `narrow_range`, `narrow_err_iff`;
+* **operators** = convert every operand, fold, narrow: `plus_spec`, `times_spec`, `neg_spec`, `minus_spec`,
+  `div_spec`, `mod_spec`, `max_spec`, `min_spec`, with `*_none_iff` (error iff an operand is non-numeric),
+  `result_err_iff` / `result_ok_iff` (error iff that or a non-finite double; a value is always a number equal
+  to the double), `maxOf_isMax`, `minOf_isMin`;
+* **conversion tables** `toNumber_*`, `parseFloat_*`; `%` is the truncated remainder (`rem_spec`, `rem_units`);
+* "the double is exactly the IEEE-754 result" is definitional in the model (`F64.add` … are *defined* as the
+  correctly rounded exact result) and is carried to the code by the bit-level correspondence stream.
 -/
 namespace JL.Props.C10
-open JL Json
+open JL Json F64 Spec.Arith
+
+/-! ## narrowing -/
 
 /-- a non-finite result is never returned as a number: it is an error -/
 theorem narrow_err (x : F64) (h : x.isFinite = false) : toNumberValue x = none := by
@@ -18,6 +34,210 @@ theorem narrow_ok (x : F64) (h : x.isFinite = true) : ∃ n, toNumberValue x = s
     · exact ⟨_, rfl⟩
     · simp [Num.ofF64?, h]
 
+/-- an error exactly when the double is not finite -/
+theorem narrow_err_iff (x : F64) : toNumberValue x = none ↔ x.isFinite = false := by
+  constructor
+  · intro h
+    cases hf : x.isFinite with
+    | false => rfl
+    | true => obtain ⟨n, hn⟩ := narrow_ok x hf; rw [hn] at h; cases h
+  · exact narrow_err x
+
+/-- the code's narrowing is the specified one (`Spec.Arith.narrow`) -/
+theorem narrow_spec (x : F64) : toNumberValue x = (narrow x).map Json.num := toNumberValue_eq_narrow x
+
+/-- whatever is returned is a JSON number -/
+theorem narrow_is_num (x : F64) (j : Json) (h : toNumberValue x = some j) : ∃ n, j = .num n := by
+  rw [narrow_spec] at h
+  cases hn : narrow x with
+  | none => rw [hn] at h; cases h
+  | some n => rw [hn] at h; cases h; exact ⟨n, rfl⟩
+
+/-- the value (in units of 2^-1074) of the JSON integer `i` is `i · S` -/
+theorem units_intNum (i : Int) : Num.units (intNum i) = i * (S : Int) := by
+  cases i with
+  | ofNat n => rfl
+  | negSucc n => simp [Num.units, intNum, Int.negSucc_eq, Int.neg_mul]
+
+theorem narrow_units (x : F64) (n : Num) (h : narrow x = some n) : some (Num.units n) = x.units := by
+  unfold narrow at h
+  cases hu : x.units with
+  | none => rw [hu] at h; cases h
+  | some u =>
+    rw [hu] at h
+    simp only [] at h
+    split at h
+    · rename_i hc
+      cases h
+      rw [units_intNum, Int.ediv_mul_cancel hc.1]
+    · cases h
+      simp [Num.units, hu]
+
+/-- **the returned JSON number is numerically equal to the double**, for every finite double of any
+magnitude (−0.0 becomes the integer 0, which is equal as a number) -/
+theorem narrow_exact (x : F64) (n : Num) (h : toNumberValue x = some (.num n)) :
+    x.isFinite = true ∧ some (Num.units n) = x.units := by
+  refine ⟨?_, ?_⟩
+  · cases hf : x.isFinite with
+    | true => rfl
+    | false => rw [narrow_err x hf] at h; cases h
+  · rw [narrow_spec] at h
+    cases hn : narrow x with
+    | none => rw [hn] at h; cases h
+    | some m =>
+      rw [hn] at h
+      have : m = n := by simpa using h
+      subst this
+      exact narrow_units x m hn
+
+/-- **integer spelling.** A finite double of `u` units (value `u · 2^-1074`):
+if it is integral (`S ∣ u`) and `−2^63 ≤ u/S < 2^64`, the result is the JSON integer `u/S` itself — `PosInt`
+or `NegInt`, never clamped or wrapped; otherwise (fractional, or integral outside that range) it is the
+double itself as a JSON float. -/
+theorem narrow_integer_spelling (x : F64) (u : Int) (hx : x.units = some u) :
+    ((S : Int) ∣ u ∧ Fits64 (u / (S : Int)) →
+        toNumberValue x = some (.num (intNum (u / (S : Int)))) ∧ Num.units (intNum (u / (S : Int))) = u) ∧
+    (¬ ((S : Int) ∣ u ∧ Fits64 (u / (S : Int))) → toNumberValue x = some (.num (.flt x))) := by
+  rw [narrow_spec]
+  unfold narrow
+  rw [hx]
+  constructor
+  · intro hc
+    refine ⟨by simp only []; rw [if_pos hc]; rfl, ?_⟩
+    rw [units_intNum, Int.ediv_mul_cancel hc.1]
+  · intro hc
+    simp only []; rw [if_neg hc]; rfl
+
+/-- the integer `i` with `−2^63 ≤ i < 2^64`, held by a double, comes back as the JSON integer `i` -/
+theorem narrow_int (x : F64) (i : Int) (hx : x.units = some (i * (S : Int))) (hi : Fits64 i) :
+    toNumberValue x = some (.num (intNum i)) := by
+  have hS : (S : Int) ≠ 0 := Int.ne_of_gt S_posI
+  have e : i * (S : Int) / (S : Int) = i := Int.mul_ediv_cancel _ hS
+  have := (narrow_integer_spelling x _ hx).1 ⟨Int.dvd_mul_left _ _, by rw [e]; exact hi⟩
+  rw [e] at this
+  exact this.1
+
+/-- a finite double that is not an integer of the 64-bit range comes back as itself -/
+theorem narrow_flt (x : F64) (u : Int) (hx : x.units = some u)
+    (h : ¬ ∃ i : Int, u = i * (S : Int) ∧ Fits64 i) : toNumberValue x = some (.num (.flt x)) := by
+  apply (narrow_integer_spelling x u hx).2
+  intro hc
+  exact h ⟨u / (S : Int), (Int.ediv_mul_cancel hc.1).symm, hc.2⟩
+
+/-- `PosInt` for `0 ≤ i`, `NegInt` for `i < 0`, holding exactly `i` -/
+theorem intNum_nonneg (i : Int) (h : 0 ≤ i) : intNum i = .pos i.toNat := by
+  cases i with
+  | ofNat n => rfl
+  | negSucc n => exact absurd h (by simp)
+
+theorem intNum_neg (i : Int) (h : i < 0) : intNum i = .neg i.natAbs := by
+  cases i with
+  | ofNat n => exact absurd h (by simp)
+  | negSucc n => rfl
+
+theorem intNum_wf (i : Int) (h : Fits64 i) : Num.WF (intNum i) := by
+  obtain ⟨h1, h2⟩ := h
+  cases i with
+  | ofNat n =>
+    change (n : Int) < 2 ^ 64 at h2
+    simp only [intNum, Num.WF]; omega
+  | negSucc n => simp only [intNum, Num.WF]; rw [Int.negSucc_eq] at h1; omega
+
+/-- range facts of the result: a `PosInt` is a `u64`, a `NegInt` is a negative `i64` (no hypothesis on `x`) -/
+theorem narrow_range (x : F64) :
+    (∀ n, toNumberValue x = some (.num (.pos n)) → n < 2 ^ 64) ∧
+    (∀ m, toNumberValue x = some (.num (.neg m)) → 1 ≤ m ∧ m ≤ 2 ^ 63) ∧
+    (∀ f, toNumberValue x = some (.num (.flt f)) → f = x ∧ x.isFinite = true) := by
+  have key : ∀ n, toNumberValue x = some (.num n) →
+      (∃ i, Fits64 i ∧ n = intNum i) ∨ (n = .flt x ∧ x.isFinite = true) := by
+    intro n h
+    have hfin := (narrow_exact x n h).1
+    rw [narrow_spec] at h
+    unfold narrow at h
+    cases hu : x.units with
+    | none => rw [hu] at h; cases h
+    | some u =>
+      rw [hu] at h
+      simp only [] at h
+      split at h
+      · rename_i hc
+        left; exact ⟨_, hc.2, by simpa using h.symm⟩
+      · right; exact ⟨by simpa using h.symm, hfin⟩
+  refine ⟨fun n h => ?_, fun m h => ?_, fun f h => ?_⟩
+  · rcases key _ h with ⟨i, hi, e⟩ | ⟨e, _⟩
+    · have := intNum_wf i hi; rw [← e] at this; exact this
+    · cases e
+  · rcases key _ h with ⟨i, hi, e⟩ | ⟨e, _⟩
+    · have := intNum_wf i hi; rw [← e] at this; exact this
+    · cases e
+  · rcases key _ h with ⟨i, hi, e⟩ | ⟨e, hf⟩
+    · cases i <;> cases e
+    · cases e; exact ⟨rfl, hf⟩
+
+/-- the result of narrowing an actual binary64 (`F64.WF`) is a well-formed `serde_json::Number` -/
+theorem narrow_wf (x : F64) (hx : F64.WF x) (n : Num) (h : toNumberValue x = some (.num n)) : Num.WF n := by
+  obtain ⟨hp, hn, hf⟩ := narrow_range x
+  cases n with
+  | pos n => exact hp n h
+  | neg m => exact hn m h
+  | flt f => obtain ⟨e, hfin⟩ := hf f h; subst e; exact ⟨hfin, hx⟩
+
+/-! ## operators: convert, fold, narrow -/
+
+/-- `numResult` (helper result through `to_number_value`) is the specified `result` -/
+theorem numResult_eq_result (r : Option F64) : numResult r = result r := by
+  unfold numResult result
+  cases r with
+  | none => rfl
+  | some x =>
+    simp only [narrow_spec]
+    cases narrow x <;> rfl
+
+/-- an arithmetic operator returns an error, never a number, exactly when the conversion failed or the double
+is not finite -/
+theorem result_err_iff (r : Option F64) :
+    result r = M.err ↔ r = none ∨ ∃ x, r = some x ∧ x.isFinite = false := by
+  cases r with
+  | none => simp [result]
+  | some x =>
+    have h1 := narrow_err_iff x
+    rw [narrow_spec] at h1
+    cases hn : narrow x with
+    | none =>
+      have : x.isFinite = false := h1.mp (by rw [hn]; rfl)
+      simp [result, hn, this]
+    | some n =>
+      have : ¬ x.isFinite = false := fun c => by have := h1.mpr c; rw [hn] at this; cases this
+      simp [result, hn, this]
+
+/-- an arithmetic operator returns a value exactly when all conversions succeeded and the double `x` is finite;
+the value is then a JSON number numerically equal to `x`, spelled as `narrow` says; nothing is logged -/
+theorem result_ok_iff (r : Option F64) (l : List Json) (j : Json) :
+    result r = ⟨l, .ok j⟩ ↔ l = [] ∧ ∃ x n, r = some x ∧ narrow x = some n ∧ j = .num n := by
+  cases r with
+  | none => simp [result]
+  | some x =>
+    cases hn : narrow x with
+    | none => simp [result, hn]
+    | some n =>
+      simp [result, hn]
+      intro _; exact eq_comm
+
+theorem result_ok_exact (r : Option F64) (l : List Json) (j : Json) (h : result r = ⟨l, .ok j⟩) :
+    ∃ x n, r = some x ∧ j = .num n ∧ x.isFinite = true ∧ some (Num.units n) = x.units := by
+  obtain ⟨_, x, n, hr, hn, hj⟩ := (result_ok_iff r l j).mp h
+  have h2 : toNumberValue x = some (.num n) := by rw [narrow_spec, hn]; rfl
+  exact ⟨x, n, hr, hj, narrow_exact x n h2⟩
+
+/-- never a panic, never anything but `ok number` / `err` -/
+theorem result_total (r : Option F64) : result r = M.err ∨ ∃ n, result r = Pure.pure (.num n) := by
+  cases r with
+  | none => left; rfl
+  | some x =>
+    cases hn : narrow x with
+    | none => left; simp [result, hn]
+    | some n => right; exact ⟨n, by simp [result, hn]⟩
+
 /-- `+` folds from 0 and `*` from 1 (operator level) -/
 theorem plus_empty : execEager "+".toList [] = ⟨[], .ok (.num (.pos 0))⟩ := by decide +kernel
 theorem op_plus (items : List Json) : execEager "+".toList items = numResult (JsOp.parseFloatAdd items) := by simp [execEager]
@@ -25,7 +245,543 @@ theorem op_mul (items : List Json) : execEager "*".toList items = numResult (JsO
 theorem op_neg (a : Json) : execEager "-".toList [a] = numResult (JsOp.toNegative a) := by simp [execEager]
 theorem op_minus (a b : Json) : execEager "-".toList [a, b] = numResult (JsOp.abstractMinus a b) := by simp [execEager]
 
-example : toNumberValue (F64.ofDecimal false 1 19) = some (.num (.pos 10000000000000000000)) := by decide +kernel
+/-- `parse_float_add` is "convert all by `parseFloat`, then sum left to right from +0" -/
+theorem parseFloatAdd_eq (items : List Json) : JsOp.parseFloatAdd items = plus items := by
+  unfold JsOp.parseFloatAdd plus
+  exact foldlM_conv JsOp.parseFloat F64.add _ (fun acc v => by cases JsOp.parseFloat v <;> rfl) items F64.zero
+
+theorem parseFloatMul_eq (items : List Json) : JsOp.parseFloatMul items = times items := by
+  unfold JsOp.parseFloatMul times
+  exact foldlM_conv JsOp.parseFloat F64.mul _ (fun acc v => by cases JsOp.parseFloat v <;> rfl) items F64.one
+
+/-- `{"+": items}` -/
+theorem plus_spec (items : List Json) : execEager "+".toList items = result (plus items) := by
+  rw [op_plus, numResult_eq_result, parseFloatAdd_eq]
+
+/-- `{"*": items}` -/
+theorem times_spec (items : List Json) : execEager "*".toList items = result (times items) := by
+  rw [op_mul, numResult_eq_result, parseFloatMul_eq]
+
+theorem plus_none_iff (items : List Json) : plus items = none ↔ ∃ v ∈ items, JsOp.parseFloat v = none := by
+  unfold plus; rw [Option.map_eq_none_iff]; exact mapM_eq_none_iff _ _
+
+theorem times_none_iff (items : List Json) : times items = none ↔ ∃ v ∈ items, JsOp.parseFloat v = none := by
+  unfold times; rw [Option.map_eq_none_iff]; exact mapM_eq_none_iff _ _
+
+theorem plus_some (items : List Json) (ns : List F64) (h : items.map JsOp.parseFloat = ns.map some) :
+    plus items = some (ns.foldl F64.add F64.zero) := by
+  unfold plus; rw [(mapM_eq_some_iff _ _ _).mpr h]; rfl
+
+theorem times_some (items : List Json) (ns : List F64) (h : items.map JsOp.parseFloat = ns.map some) :
+    times items = some (ns.foldl F64.mul F64.one) := by
+  unfold times; rw [(mapM_eq_some_iff _ _ _).mpr h]; rfl
+
+/-- `{"+": items}` is an error exactly when an operand has no numeric prefix or the sum is not finite -/
+theorem plus_err_iff (items : List Json) :
+    execEager "+".toList items = M.err ↔
+      (∃ v ∈ items, JsOp.parseFloat v = none) ∨
+      (∃ ns : List F64, items.map JsOp.parseFloat = ns.map some ∧ (ns.foldl F64.add F64.zero).isFinite = false) := by
+  rw [plus_spec, result_err_iff, plus_none_iff]
+  constructor
+  · rintro (h | ⟨x, hx, hf⟩)
+    · exact Or.inl h
+    · right
+      unfold plus at hx
+      cases hm : items.mapM JsOp.parseFloat with
+      | none => rw [hm] at hx; cases hx
+      | some ns =>
+        rw [hm] at hx; cases hx
+        exact ⟨ns, (mapM_eq_some_iff _ _ _).mp hm, hf⟩
+  · rintro (h | ⟨ns, hns, hf⟩)
+    · exact Or.inl h
+    · exact Or.inr ⟨_, plus_some items ns hns, hf⟩
+
+theorem times_err_iff (items : List Json) :
+    execEager "*".toList items = M.err ↔
+      (∃ v ∈ items, JsOp.parseFloat v = none) ∨
+      (∃ ns : List F64, items.map JsOp.parseFloat = ns.map some ∧ (ns.foldl F64.mul F64.one).isFinite = false) := by
+  rw [times_spec, result_err_iff, times_none_iff]
+  constructor
+  · rintro (h | ⟨x, hx, hf⟩)
+    · exact Or.inl h
+    · right
+      unfold times at hx
+      cases hm : items.mapM JsOp.parseFloat with
+      | none => rw [hm] at hx; cases hx
+      | some ns =>
+        rw [hm] at hx; cases hx
+        exact ⟨ns, (mapM_eq_some_iff _ _ _).mp hm, hf⟩
+  · rintro (h | ⟨ns, hns, hf⟩)
+    · exact Or.inl h
+    · exact Or.inr ⟨_, times_some items ns hns, hf⟩
+
+/-! ### one-operand `-` -/
+
+/-- `-1.0 * x` is the sign flip of `x` for every binary64 `x`, NaN, ±∞ and ±0 included -/
+theorem neg_one_mul_eq_negate (x : F64) (hx : F64.WF x) : F64.mul (F64.fin true S) x = F64.negate x :=
+  F64.neg_one_mul x hx
+
+/-- every JSON value the interfaces can deliver converts to an actual binary64 -/
+theorem toNumber_wf (v : Json) (hv : v.wf = true) (x : F64) (h : JsOp.toNumber v = some x) : F64.WF x :=
+  JsOp.toNumber_WF v hv x h
+
+theorem parseFloat_wf (v : Json) (hv : v.wf = true) (x : F64) (h : JsOp.parseFloat v = some x) : F64.WF x :=
+  JsOp.parseFloat_WF v hv x h
+
+theorem toNegative_eq (a : Json) (ha : a.wf = true) : JsOp.toNegative a = neg a := by
+  unfold JsOp.toNegative neg
+  cases h : JsOp.toNumber a with
+  | none => rfl
+  | some x => simp [F64.neg_one_mul x (JsOp.toNumber_WF a ha x h)]
+
+/-- `{"-": [a]}` is the negation of `Number(a)` -/
+theorem neg_spec (a : Json) (ha : a.wf = true) : execEager "-".toList [a] = result (neg a) := by
+  rw [op_neg, numResult_eq_result, toNegative_eq a ha]
+
+theorem neg_none_iff (a : Json) : neg a = none ↔ JsOp.toNumber a = none := by
+  unfold neg; exact Option.map_eq_none_iff
+
+/-! ### `-`, `/`, `%` on two operands -/
+
+theorem abstractMinus_eq (a b : Json) : JsOp.abstractMinus a b = binary F64.sub a b := by
+  unfold JsOp.abstractMinus binary
+  cases JsOp.toNumber a <;> cases JsOp.toNumber b <;> rfl
+
+theorem abstractDiv_eq (a b : Json) : JsOp.abstractDiv a b = binary F64.div a b := by
+  unfold JsOp.abstractDiv binary
+  cases JsOp.toNumber a <;> cases JsOp.toNumber b <;> rfl
+
+theorem abstractMod_eq (a b : Json) : JsOp.abstractMod a b = binary F64.rem a b := by
+  unfold JsOp.abstractMod binary
+  cases JsOp.toNumber a <;> cases JsOp.toNumber b <;> rfl
+
+/-- `{"-": [a, b]}` (a third operand cannot pass the arity check `1..3`) -/
+theorem minus_spec (a b : Json) (rest : List Json) :
+    execEager "-".toList (a :: b :: rest) = result (binary F64.sub a b) := by
+  have : execEager "-".toList (a :: b :: rest) = numResult (JsOp.abstractMinus a b) := by simp [execEager]
+  rw [this, numResult_eq_result, abstractMinus_eq]
+
+/-- `{"/": [a, b]}` -/
+theorem div_spec (a b : Json) (rest : List Json) :
+    execEager "/".toList (a :: b :: rest) = result (binary F64.div a b) := by
+  have : execEager "/".toList (a :: b :: rest) = numResult (JsOp.abstractDiv a b) := by simp [execEager]
+  rw [this, numResult_eq_result, abstractDiv_eq]
+
+/-- `{"%": [a, b]}` -/
+theorem mod_spec (a b : Json) (rest : List Json) :
+    execEager "%".toList (a :: b :: rest) = result (binary F64.rem a b) := by
+  have : execEager "%".toList (a :: b :: rest) = numResult (JsOp.abstractMod a b) := by simp [execEager]
+  rw [this, numResult_eq_result, abstractMod_eq]
+
+/-- a binary operator fails to convert exactly when one of the two operands is non-numeric -/
+theorem binary_none_iff (op : F64 → F64 → F64) (a b : Json) :
+    binary op a b = none ↔ JsOp.toNumber a = none ∨ JsOp.toNumber b = none := by
+  unfold binary
+  cases JsOp.toNumber a <;> cases JsOp.toNumber b <;> simp
+
+theorem binary_some (op : F64 → F64 → F64) (a b : Json) (x y : F64)
+    (ha : JsOp.toNumber a = some x) (hb : JsOp.toNumber b = some y) : binary op a b = some (op x y) := by
+  unfold binary; rw [ha, hb]; rfl
+
+/-- `%` is the truncated remainder (C `fmod`): exact, sign of the dividend -/
+theorem rem_spec (a b : Bool) (x y : Nat) (hy : y ≠ 0) :
+    F64.rem (F64.fin a x) (F64.fin b y) = F64.fin a (x % y) := F64.rem_fin a b x y hy
+
+/-- … in exact values: the remainder of the division truncated toward zero (`Int.tmod`), no rounding -/
+theorem rem_units (X Y : F64) (ux uy : Int) (hx : X.units = some ux) (hy : Y.units = some uy) (h0 : uy ≠ 0) :
+    (F64.rem X Y).units = some (ux.tmod uy) := by
+  cases X with
+  | nan => cases hx
+  | inf a => cases hx
+  | fin a x =>
+    cases Y with
+    | nan => cases hy
+    | inf b => cases hy
+    | fin b y =>
+      have hy0 : y ≠ 0 := by
+        intro e; subst e
+        cases b <;> simp [F64.units] at hy <;> exact h0 hy.symm
+      rw [F64.rem_fin a b x y hy0]
+      cases a <;> cases b <;> simp only [F64.units, Option.some.injEq] at hx hy ⊢ <;> subst hx <;> subst hy <;>
+        simp only [Int.neg_tmod, Int.tmod_neg, Int.ofNat_tmod]
+
+/-! ### `max` / `min` -/
+
+theorem abstractMax_eq (items : List Json) : JsOp.abstractMax items = maxOf items := by
+  unfold JsOp.abstractMax maxOf
+  exact foldlM_conv JsOp.toNumber fmax _ (fun acc v => by cases JsOp.toNumber v <;> rfl) items (F64.inf true)
+
+theorem abstractMin_eq (items : List Json) : JsOp.abstractMin items = minOf items := by
+  unfold JsOp.abstractMin minOf
+  exact foldlM_conv JsOp.toNumber fmin _ (fun acc v => by cases JsOp.toNumber v <;> rfl) items (F64.inf false)
+
+/-- `{"max": items}` -/
+theorem max_spec (items : List Json) : execEager "max".toList items = result (maxOf items) := by
+  have : execEager "max".toList items = numResult (JsOp.abstractMax items) := by simp [execEager]
+  rw [this, numResult_eq_result, abstractMax_eq]
+
+/-- `{"min": items}` -/
+theorem min_spec (items : List Json) : execEager "min".toList items = result (minOf items) := by
+  have : execEager "min".toList items = numResult (JsOp.abstractMin items) := by simp [execEager]
+  rw [this, numResult_eq_result, abstractMin_eq]
+
+theorem maxOf_none_iff (items : List Json) : maxOf items = none ↔ ∃ v ∈ items, JsOp.toNumber v = none := by
+  unfold maxOf; rw [Option.map_eq_none_iff]; exact mapM_eq_none_iff _ _
+
+theorem minOf_none_iff (items : List Json) : minOf items = none ↔ ∃ v ∈ items, JsOp.toNumber v = none := by
+  unfold minOf; rw [Option.map_eq_none_iff]; exact mapM_eq_none_iff _ _
+
+/-- the double computed by `max` is a maximum of the converted operands: no operand is greater and it is one of
+them (−∞ only if there is nothing to take) -/
+theorem maxOf_isMax (items : List Json) (m : F64) (h : maxOf items = some m) :
+    ∃ ns, items.map JsOp.toNumber = ns.map some ∧ IsMax m ns := by
+  unfold maxOf at h
+  cases hm : items.mapM JsOp.toNumber with
+  | none => rw [hm] at h; cases h
+  | some ns =>
+    rw [hm] at h; cases h
+    exact ⟨ns, (mapM_eq_some_iff _ _ _).mp hm, isMax_foldl ns⟩
+
+theorem minOf_isMin (items : List Json) (m : F64) (h : minOf items = some m) :
+    ∃ ns, items.map JsOp.toNumber = ns.map some ∧ IsMin m ns := by
+  unfold minOf at h
+  cases hm : items.mapM JsOp.toNumber with
+  | none => rw [hm] at h; cases h
+  | some ns =>
+    rw [hm] at h; cases h
+    exact ⟨ns, (mapM_eq_some_iff _ _ _).mp hm, isMin_foldl ns⟩
+
+/-- with at least one operand (the arity of `max`) and no NaN among the converted operands, the maximum is one of
+them and `≥` each -/
+theorem maxOf_attained (items : List Json) (m : F64) (h : maxOf items = some m) (hne : items ≠ [])
+    (hnan : ∀ v ∈ items, ∀ x, JsOp.toNumber v = some x → x.isNaN = false) :
+    (∃ v ∈ items, JsOp.toNumber v = some m) ∧ ∀ v ∈ items, ∃ x, JsOp.toNumber v = some x ∧ F64.le x m = true := by
+  obtain ⟨ns, hns, hmax⟩ := maxOf_isMax items m h
+  have hmem : ∀ n, n ∈ ns ↔ ∃ v ∈ items, JsOp.toNumber v = some n := by
+    intro n
+    have : some n ∈ ns.map some ↔ n ∈ ns := by simp
+    rw [← this, ← hns]; simp
+  have hne' : ns ≠ [] := by
+    intro e; subst e; cases items with
+    | nil => exact hne rfl
+    | cons _ _ => simp at hns
+  have hnan' : ∀ n ∈ ns, n.isNaN = false := by
+    intro n hn; obtain ⟨v, hv, e⟩ := (hmem n).mp hn; exact hnan v hv n e
+  obtain ⟨h1, h2⟩ := isMax_strong hmax hne' hnan'
+  refine ⟨(hmem m).mp h1, fun v hv => ?_⟩
+  have : JsOp.toNumber v ∈ ns.map some := by rw [← hns]; exact List.mem_map_of_mem hv
+  obtain ⟨x, hx, e⟩ := List.mem_map.mp this
+  exact ⟨x, e.symm, h2 x hx⟩
+
+theorem minOf_attained (items : List Json) (m : F64) (h : minOf items = some m) (hne : items ≠ [])
+    (hnan : ∀ v ∈ items, ∀ x, JsOp.toNumber v = some x → x.isNaN = false) :
+    (∃ v ∈ items, JsOp.toNumber v = some m) ∧ ∀ v ∈ items, ∃ x, JsOp.toNumber v = some x ∧ F64.le m x = true := by
+  obtain ⟨ns, hns, hmin⟩ := minOf_isMin items m h
+  have hmem : ∀ n, n ∈ ns ↔ ∃ v ∈ items, JsOp.toNumber v = some n := by
+    intro n
+    have : some n ∈ ns.map some ↔ n ∈ ns := by simp
+    rw [← this, ← hns]; simp
+  have hne' : ns ≠ [] := by
+    intro e; subst e; cases items with
+    | nil => exact hne rfl
+    | cons _ _ => simp at hns
+  have hnan' : ∀ n ∈ ns, n.isNaN = false := by
+    intro n hn; obtain ⟨v, hv, e⟩ := (hmem n).mp hn; exact hnan v hv n e
+  obtain ⟨h1, h2⟩ := isMin_strong hmin hne' hnan'
+  refine ⟨(hmem m).mp h1, fun v hv => ?_⟩
+  have : JsOp.toNumber v ∈ ns.map some := by rw [← hns]; exact List.mem_map_of_mem hv
+  obtain ⟨x, hx, e⟩ := List.mem_map.mp this
+  exact ⟨x, e.symm, h2 x hx⟩
+
+/-- error iff an operand is non-numeric or the double is not finite, for the two-operand operators -/
+theorem binary_err_iff (op : F64 → F64 → F64) (a b : Json) :
+    result (binary op a b) = M.err ↔
+      JsOp.toNumber a = none ∨ JsOp.toNumber b = none ∨
+      ∃ x y, JsOp.toNumber a = some x ∧ JsOp.toNumber b = some y ∧ (op x y).isFinite = false := by
+  rw [result_err_iff, binary_none_iff]
+  constructor
+  · rintro ((h | h) | ⟨z, hz, hf⟩)
+    · exact Or.inl h
+    · exact Or.inr (Or.inl h)
+    · cases ha : JsOp.toNumber a with
+      | none => exact Or.inl rfl
+      | some x =>
+        cases hb : JsOp.toNumber b with
+        | none => exact Or.inr (Or.inl rfl)
+        | some y =>
+          rw [binary_some op a b x y ha hb] at hz
+          cases hz
+          exact Or.inr (Or.inr ⟨x, y, rfl, rfl, hf⟩)
+  · rintro (h | h | ⟨x, y, ha, hb, hf⟩)
+    · exact Or.inl (Or.inl h)
+    · exact Or.inl (Or.inr h)
+    · exact Or.inr ⟨_, binary_some op a b x y ha hb, hf⟩
+
+/-- `max` is an error iff an operand is non-numeric (the maximum of finite numbers is finite; `"Infinity"`
+converts to +∞ and then makes the result an error too) -/
+theorem max_err_iff (items : List Json) :
+    execEager "max".toList items = M.err ↔
+      (∃ v ∈ items, JsOp.toNumber v = none) ∨ ∃ m, maxOf items = some m ∧ m.isFinite = false := by
+  rw [max_spec, result_err_iff, maxOf_none_iff]
+
+theorem min_err_iff (items : List Json) :
+    execEager "min".toList items = M.err ↔
+      (∃ v ∈ items, JsOp.toNumber v = none) ∨ ∃ m, minOf items = some m ∧ m.isFinite = false := by
+  rw [min_spec, result_err_iff, minOf_none_iff]
+
+/-! ## all seven operators in one statement -/
+
+/-- **C10, operator level.** For each of `+ - * / % min max`, on every operand list its arity admits (operands
+being values the interfaces can deliver), the operator returns `result (arith k items)`: the specified double
+(conversion by `parseFloat` / `Number`, IEEE fold) narrowed to a JSON number, or an error. -/
+theorem arith_spec (k : String) (hk : k ∈ ["+", "-", "*", "/", "%", "min", "max"]) (items : List Json)
+    (hwf : ∀ v ∈ items, v.wf = true)
+    (harity : ∃ e, findEntry k.toList Tables.eager = some e ∧ e.arity.isValidLen items.length = true) :
+    execEager k.toList items = result (arith k items) := by
+  obtain ⟨e, he, hl⟩ := harity
+  simp only [List.mem_cons, List.not_mem_nil, or_false] at hk
+  rcases hk with rfl | rfl | rfl | rfl | rfl | rfl | rfl
+  · rw [plus_spec]; rfl
+  · have : findEntry "-".toList Tables.eager = some ⟨"-".toList, "-".toList, .variadic 1 3, "411fedaaa3d4".toList⟩ := by
+      decide +kernel
+    rw [this] at he; cases he
+    rcases items with _ | ⟨a, _ | ⟨b, rest⟩⟩
+    · simp [Arity.isValidLen] at hl
+    · rw [neg_spec a (hwf a List.mem_cons_self)]; rfl
+    · rw [minus_spec]; rfl
+  · rw [times_spec]; rfl
+  · have : findEntry "/".toList Tables.eager = some ⟨"/".toList, "/".toList, .exactly 2, "248bead61665".toList⟩ := by
+      decide +kernel
+    rw [this] at he; cases he
+    rcases items with _ | ⟨a, _ | ⟨b, rest⟩⟩
+    · simp [Arity.isValidLen] at hl
+    · simp [Arity.isValidLen] at hl
+    · rw [div_spec]; rfl
+  · have : findEntry "%".toList Tables.eager = some ⟨"%".toList, "%".toList, .exactly 2, "2def0f18c72a".toList⟩ := by
+      decide +kernel
+    rw [this] at he; cases he
+    rcases items with _ | ⟨a, _ | ⟨b, rest⟩⟩
+    · simp [Arity.isValidLen] at hl
+    · simp [Arity.isValidLen] at hl
+    · rw [mod_spec]; rfl
+  · rw [min_spec]; rfl
+  · rw [max_spec]; rfl
+
+/-- … hence: never a panic; an error exactly when a conversion fails or the double is not finite; otherwise a JSON
+number numerically equal to the double, an integer variant iff the double is an integer of the 64-bit range -/
+theorem arith_outcome (k : String) (hk : k ∈ ["+", "-", "*", "/", "%", "min", "max"]) (items : List Json)
+    (hwf : ∀ v ∈ items, v.wf = true)
+    (harity : ∃ e, findEntry k.toList Tables.eager = some e ∧ e.arity.isValidLen items.length = true) :
+    (execEager k.toList items = M.err ∧
+        (arith k items = none ∨ ∃ x, arith k items = some x ∧ x.isFinite = false)) ∨
+    (∃ x n, arith k items = some x ∧ x.isFinite = true ∧ narrow x = some n ∧
+        execEager k.toList items = Pure.pure (.num n) ∧ some (Num.units n) = x.units) := by
+  rw [arith_spec k hk items hwf harity]
+  cases hr : arith k items with
+  | none => left; exact ⟨rfl, Or.inl rfl⟩
+  | some x =>
+    cases hn : narrow x with
+    | none =>
+      left
+      have : result (some x) = M.err := by simp [result, hn]
+      refine ⟨this, Or.inr ⟨x, rfl, ?_⟩⟩
+      rcases (result_err_iff (some x)).mp this with h | ⟨y, hy, hf⟩
+      · cases h
+      · cases hy; exact hf
+    | some n =>
+      right
+      have h2 : toNumberValue x = some (.num n) := by rw [narrow_spec, hn]; rfl
+      exact ⟨x, n, rfl, (narrow_exact x n h2).1, hn, by simp [result, hn], (narrow_exact x n h2).2⟩
+
+/-! ## conversion tables -/
+
+/-- Number-style: `""`, `null`, `false`, `[]` are +0 and `true` is 1 -/
+theorem toNumber_empty_string : JsOp.toNumber (.str []) = some F64.zero := by decide +kernel
+theorem toNumber_null : JsOp.toNumber .null = some F64.zero := rfl
+theorem toNumber_false : JsOp.toNumber (.bool false) = some F64.zero := rfl
+theorem toNumber_true : JsOp.toNumber (.bool true) = some F64.one := rfl
+theorem toNumber_empty_array : JsOp.toNumber (.arr []) = some F64.zero := by decide +kernel
+/-- a JSON number is its own double (`as_f64`) -/
+theorem toNumber_num (n : Num) : JsOp.toNumber (.num n) = some n.toF64 := rfl
+/-- a string is read by `str_to_number` (JS `Number(string)`) -/
+theorem toNumber_str (s : Str) : JsOp.toNumber (.str s) = JsOp.strToNumber s := rfl
+/-- arrays and objects go through their string form -/
+theorem toNumber_arr (xs : List Json) : JsOp.toNumber (.arr xs) = JsOp.strToNumber (JsOp.toString (.arr xs)) := rfl
+theorem toString_obj (kvs : List (Str × Json)) : JsOp.toString (.obj kvs) = "[object Object]".toList := by
+  unfold JsOp.toString; rfl
+/-- the string form of a one-element array is the string form of the element (`""` for `[null]`) -/
+theorem toString_singleton (x : Json) (hx : x ≠ .null) : JsOp.toString (.arr [x]) = JsOp.toString x := by
+  cases x with
+  | null => exact absurd rfl hx
+  | bool b => rfl
+  | num n => rfl
+  | str s => rfl
+  | arr ys => rfl
+  | obj kvs => rfl
+theorem toNumber_obj (kvs : List (Str × Json)) : JsOp.toNumber (.obj kvs) = none := by
+  show JsOp.strToNumber (JsOp.toString (.obj kvs)) = none
+  rw [toString_obj]
+  decide +kernel
+
+/-- `[x]` is `x`: the one-element array converts as the string form of its element (`[null]` as `""`) -/
+theorem toNumber_singleton_null : JsOp.toNumber (.arr [.null]) = some F64.zero := by decide +kernel
+theorem toNumber_singleton (x : Json) (hx : x ≠ .null) :
+    JsOp.toNumber (.arr [x]) = JsOp.strToNumber (JsOp.toString x) := by
+  rw [toNumber_arr, toString_singleton x hx]
+theorem toNumber_singleton_str (s : Str) : JsOp.toNumber (.arr [.str s]) = JsOp.toNumber (.str s) := by
+  rw [toNumber_singleton _ (by simp)]; rfl
+theorem toNumber_singleton_arr (ys : List Json) : JsOp.toNumber (.arr [.arr ys]) = JsOp.toNumber (.arr ys) := by
+  rw [toNumber_singleton _ (by simp)]; rfl
+theorem toNumber_singleton_num (n : Num) : JsOp.toNumber (.arr [.num n]) = JsOp.strToNumber n.toStr := by
+  rw [toNumber_singleton _ (by simp)]; rfl
+/-- `[true]`, `[false]`, `[{…}]` are non-numeric (`Number("true")` is NaN) -/
+theorem toNumber_singleton_bool (b : Bool) : JsOp.toNumber (.arr [.bool b]) = none := by
+  cases b <;> decide +kernel
+theorem toNumber_singleton_obj (kvs : List (Str × Json)) : JsOp.toNumber (.arr [.obj kvs]) = none := by
+  rw [toNumber_singleton _ (by simp), toString_obj]; decide +kernel
+
+/-- parseFloat-style: a JSON number is its own double, anything else is scanned as its string form -/
+theorem parseFloat_num (n : Num) : JsOp.parseFloat (.num n) = some n.toF64 := rfl
+theorem parseFloat_str (s : Str) : JsOp.parseFloat (.str s) = JsOp.parseFloatString s := rfl
+theorem parseFloat_other (v : Json) (h1 : ∀ n, v ≠ .num n) (h2 : ∀ s, v ≠ .str s) :
+    JsOp.parseFloat v = JsOp.parseFloatString (JsOp.toString v) := by
+  cases v with
+  | num n => exact absurd rfl (h1 n)
+  | str s => exact absurd rfl (h2 s)
+  | null => rfl
+  | bool b => rfl
+  | arr xs => rfl
+  | obj kvs => rfl
+theorem parseFloat_singleton (x : Json) (hx : x ≠ .null) :
+    JsOp.parseFloat (.arr [x]) = JsOp.parseFloatString (JsOp.toString x) := by
+  show JsOp.parseFloatString (JsOp.toString (.arr [x])) = _
+  rw [toString_singleton x hx]
+theorem parseFloat_singleton_str (s : Str) : JsOp.parseFloat (.arr [.str s]) = JsOp.parseFloat (.str s) := by
+  rw [parseFloat_singleton _ (by simp)]; rfl
+/-- `null`, booleans, `[]`, `""` and objects have no numeric prefix: `+` and `*` reject them -/
+theorem parseFloat_null : JsOp.parseFloat .null = none := by decide +kernel
+theorem parseFloat_bool (b : Bool) : JsOp.parseFloat (.bool b) = none := by cases b <;> decide +kernel
+theorem parseFloat_empty_array : JsOp.parseFloat (.arr []) = none := by decide +kernel
+theorem parseFloat_empty_string : JsOp.parseFloat (.str []) = none := by decide +kernel
+theorem parseFloat_obj (kvs : List (Str × Json)) : JsOp.parseFloat (.obj kvs) = none := by
+  show JsOp.parseFloatString (JsOp.toString (.obj kvs)) = none
+  rw [toString_obj]; decide +kernel
+
+/-! ## IEEE facts used above, restated -/
+
+theorem add_comm (x y : F64) : F64.add x y = F64.add y x := F64.add_comm x y
+theorem mul_comm (x y : F64) : F64.mul x y = F64.mul y x := F64.mul_comm x y
+/-- every arithmetic operation returns an actual binary64 -/
+theorem ops_wf (x y : F64) :
+    F64.WF (F64.add x y) ∧ F64.WF (F64.sub x y) ∧ F64.WF (F64.mul x y) ∧ F64.WF (F64.div x y) ∧
+    (F64.WF x → F64.WF y → F64.WF (F64.rem x y)) :=
+  ⟨F64.add_WF x y, F64.sub_WF x y, F64.mul_WF x y, F64.div_WF x y, F64.rem_WF x y⟩
+
+/-- one operand: `{"+":[v]}` is the numeric cast of `v` (0 + x = x; −0 becomes +0, the same JSON integer 0) -/
+theorem plus_single (v : Json) (hv : v.wf = true) :
+    execEager "+".toList [v] = result (JsOp.parseFloat v) := by
+  rw [plus_spec]
+  unfold plus
+  cases h : JsOp.parseFloat v with
+  | none => simp [h]
+  | some x =>
+    have hx := JsOp.parseFloat_WF v hv x h
+    simp only [List.mapM_cons, List.mapM_nil, h]
+    by_cases hz : x = F64.fin true 0
+    · subst hz; decide +kernel
+    · show result (some (F64.add F64.zero x)) = _
+      rw [F64.zero_add x hx hz]
+
+/-- one operand: `{"*":[v]}` likewise (1 · x = x) -/
+theorem times_single (v : Json) (hv : v.wf = true) :
+    execEager "*".toList [v] = result (JsOp.parseFloat v) := by
+  rw [times_spec]
+  unfold times
+  cases h : JsOp.parseFloat v with
+  | none => simp [h]
+  | some x =>
+    have hx := JsOp.parseFloat_WF v hv x h
+    simp only [List.mapM_cons, List.mapM_nil, h]
+    show result (some (F64.mul F64.one x)) = _
+    rw [F64.one_mul x hx]
+
+/-! ## non-vacuity: concrete inputs (closed terms evaluated by the kernel) -/
+
+section Examples
+def opRule (k : String) (args : List Json) : Json := .obj [(k.toList, .arr args)]
+def f1e19 : F64 := F64.ofDecimal false 1 19
+def two63 : Nat := 9223372036854775808
+def two64 : Nat := 18446744073709551616
+
+-- narrowing: 1e19 (beyond i64, inside u64) is spelled 10000000000000000000, not clamped to i64::MAX
+example : toNumberValue f1e19 = some (.num (.pos 10000000000000000000)) := by decide +kernel
+example : apply (opRule "+" [.num (.flt f1e19)]) .null = ⟨[], .ok (.num (.pos 10000000000000000000))⟩ := by
+  decide +kernel
+-- 2^63 − 1 is not a double: u64::MAX and i64::MAX convert to 2^64 and 2^63
 example : toNumberValue (F64.ofNat (2^64 - 1)) = some (.num (.flt (F64.ofNat (2^64)))) := by decide +kernel
+-- the 2^63 boundary: 2^63 itself is a `PosInt`, −2^63 is `NegInt(i64::MIN)`, the next double below is a float
+example : apply (opRule "+" [.num (.pos (two63 - 1)), .num (.pos 1)]) .null = ⟨[], .ok (.num (.pos two63))⟩ := by
+  decide +kernel
+example : apply (opRule "-" [.num (.pos two63)]) .null = ⟨[], .ok (.num (.neg two63))⟩ := by decide +kernel
+example : apply (opRule "*" [.num (.neg two63), .num (.pos 2)]) .null =
+    ⟨[], .ok (.num (.flt (F64.fin true (two64 * S))))⟩ := by decide +kernel
+example : apply (opRule "-" [.num (.neg two63), .num (.pos 2048)]) .null =
+    ⟨[], .ok (.num (.flt (F64.fin true ((two63 + 2048) * S))))⟩ := by decide +kernel
+-- the 2^64 boundary: the largest double below 2^64 is a `PosInt`, 2^64 itself stays a float
+example : apply (opRule "-" [.num (.pos (two64 - 1)), .num (.pos 2048)]) .null =
+    ⟨[], .ok (.num (.pos (two64 - 2048)))⟩ := by decide +kernel
+example : apply (opRule "*" [.num (.pos 4294967296), .num (.pos 4294967296)]) .null =
+    ⟨[], .ok (.num (.flt (F64.fin false (two64 * S))))⟩ := by decide +kernel
+-- 1e300 is integral but far outside: itself
+example : toNumberValue (F64.ofDecimal false 1 300) = some (.num (.flt (F64.ofDecimal false 1 300))) := by
+  decide +kernel
+-- −0.0 is the integer 0
+example : toNumberValue (F64.fin true 0) = some (.num (.pos 0)) := by decide +kernel
+example : apply (opRule "-" [.num (.pos 0)]) .null = ⟨[], .ok (.num (.pos 0))⟩ := by decide +kernel
+example : apply (opRule "*" [.num (.neg 1), .num (.pos 0)]) .null = ⟨[], .ok (.num (.pos 0))⟩ := by decide +kernel
+-- a fraction stays a float: 0.1 + 0.2 is the double 0.30000000000000004
+example : apply (opRule "+" [.num (.flt (F64.ofDecimal false 1 (-1))), .num (.flt (F64.ofDecimal false 2 (-1)))]) .null =
+    ⟨[], .ok (.num (.flt (F64.ofDecimal false 30000000000000004 (-17))))⟩ := by decide +kernel
+-- non-finite results are errors, never numbers
+example : apply (opRule "/" [.num (.pos 1), .num (.pos 0)]) .null = ⟨[], .err⟩ := by decide +kernel
+example : apply (opRule "/" [.num (.pos 0), .num (.pos 0)]) .null = ⟨[], .err⟩ := by decide +kernel
+example : apply (opRule "%" [.num (.pos 1), .num (.pos 0)]) .null = ⟨[], .err⟩ := by decide +kernel
+example : apply (opRule "*" [.num (.flt (F64.ofDecimal false 1 200)), .num (.flt (F64.ofDecimal false 1 200))]) .null =
+    ⟨[], .err⟩ := by decide +kernel
+example : toNumberValue F64.nan = none ∧ toNumberValue (F64.inf true) = none := by decide +kernel
+-- non-numeric operands are errors
+example : apply (opRule "-" [.str "a".toList, .num (.pos 1)]) .null = ⟨[], .err⟩ := by decide +kernel
+example : apply (opRule "+" [.num (.pos 1), .null]) .null = ⟨[], .err⟩ := by decide +kernel
+example : apply (opRule "max" [.num (.pos 1), .obj []]) .null = ⟨[], .err⟩ := by decide +kernel
+-- conversions: "12px" is 12 for `+`, [3] is 3, "" / null / false / [] are 0 and true is 1 for `-`
+example : apply (opRule "+" [.str "12px".toList, .arr [.num (.pos 3)]]) .null = ⟨[], .ok (.num (.pos 15))⟩ := by
+  decide +kernel
+example : apply (opRule "-" [.arr [.num (.pos 3)], .bool true]) .null = ⟨[], .ok (.num (.pos 2))⟩ := by decide +kernel
+example : apply (opRule "-" [.str [], .null]) .null = ⟨[], .ok (.num (.pos 0))⟩ := by decide +kernel
+example : apply (opRule "-" [.str "12px".toList, .num (.pos 1)]) .null = ⟨[], .err⟩ := by decide +kernel
+-- `%` has the sign of the dividend
+example : apply (opRule "%" [.num (.neg 7), .num (.pos 2)]) .null = ⟨[], .ok (.num (.neg 1))⟩ := by decide +kernel
+example : apply (opRule "%" [.num (.pos 7), .num (.neg 2)]) .null = ⟨[], .ok (.num (.pos 1))⟩ := by decide +kernel
+example : apply (opRule "%" [.num (.flt (F64.ofDecimal false 55 (-1))), .num (.pos 2)]) .null =
+    ⟨[], .ok (.num (.flt (F64.ofDecimal false 15 (-1))))⟩ := by decide +kernel
+-- `max` / `min`
+example : apply (opRule "max" [.num (.pos 1), .str "3".toList, .num (.pos 2)]) .null = ⟨[], .ok (.num (.pos 3))⟩ := by
+  decide +kernel
+example : apply (opRule "min" [.num (.pos 1), .str "-3".toList, .num (.pos 2)]) .null = ⟨[], .ok (.num (.neg 3))⟩ := by
+  decide +kernel
+
+-- hypotheses of the theorems above are met by real inputs
+example : f1e19.units = some ((10000000000000000000 : Int) * (S : Int)) ∧ Fits64 10000000000000000000 := by
+  decide +kernel
+example : F64.WF f1e19 ∧ F64.WF (F64.ofDecimal false 15 (-1)) ∧ F64.WF (F64.fin true 0) := by decide +kernel
+example : (Json.arr [.num (.flt (F64.ofDecimal false 15 (-1))), .str "x".toList]).wf = true := by decide +kernel
+example : F64.OnGrid (3 * S) ∧ F64.OnGrid (2 * S) ∧ 2 * S ≠ 0 := by decide +kernel
+example : maxOf [.num (.pos 1), .str "3".toList] = some (F64.ofNat 3) := by decide +kernel
+example : ∃ e, findEntry "-".toList Tables.eager = some e ∧ e.arity.isValidLen [Json.null].length = true :=
+  ⟨⟨"-".toList, "-".toList, .variadic 1 3, "411fedaaa3d4".toList⟩, by decide +kernel, by decide +kernel⟩
+-- `F64.WF` is needed for `-1.0 * x = -x`: a 61-bit "mantissa" is not a double and gets rounded
+example : F64.mul (F64.fin true S) (F64.fin false (2^60 + 1)) ≠ F64.negate (F64.fin false (2^60 + 1)) := by
+  decide +kernel
+end Examples
 
 end JL.Props.C10
